@@ -25,11 +25,13 @@ from typing import Any
 from . import common as C
 from . import lexdump as L
 from . import lexgen as G
+from .c17 import GROUP, SHARDS, Cases
 
 IMPORTS = "From LQ Require Import Kernels.LexUni Kernels.Lex Kernels.ErrCtx."
 NEEDED = ["theories/Base/Str.v", "theories/Kernels/LexUni.v", "theories/Kernels/Lex.v",
           "theories/Kernels/ErrCtx.v", "theories/Proofs/LexMatch_proofs.v",
           "theories/Proofs/Lex_proofs.v", "theories/Proofs/ErrCtx_proofs.v"]
+# (Proofs/LexNest_proofs.v and LexText_proofs.v belong to C17; C02's theorems do not depend on them)
 
 LINEBREAKS = ["\n", "\r", "\r\n", "\x0b", "\x0c", "\x1c", "\x1d", "\x1e", "\x85", "\u2028", "\u2029"]
 SPACES = [" ", "\t", "\xa0", "\u2003", "\u3000", "\x1f"]
@@ -225,29 +227,27 @@ def main(chk: C.Check, build: C.Build) -> None:
     r.shuffle(rest)
     pool += rest[: (400 if thorough else 25)]
     pool += [G.g_template(r) for _ in range(300 if thorough else 20)]
-    srcs: list[tuple[str, bool]] = []
-    seen: set[tuple[str, bool]] = set()
-
-    def add(s: str, sh: bool) -> None:
-        if (s, sh) not in seen and len(s) <= 400:
-            seen.add((s, sh))
-            srcs.append((s, sh))
-
+    cs = Cases()
     for s in pool:
+        if len(s) > 400:
+            continue
         sh = r.random() < 0.2
-        add(s, sh)
+        cs.whole(s, sh, "pool")
         ks = range(len(s)) if (thorough or s in G.APPENDIX) else sorted(r.sample(range(len(s)), min(len(s), 12)))
         for k in ks:
-            add(s[:k], sh)
+            cs.add(s, k, len(s), "", sh, "prefix")
         for (i, j, ins) in G.edits(r, s, 6 if thorough else 2):
-            add(s[:i] + ins + s[j:], sh)
+            cs.add(s, i, j, ins, sh, "edit")
     for _ in range(6000 if thorough else 400):
-        add(G.g_random(r), r.random() < 0.2)
+        cs.whole(G.g_random(r), r.random() < 0.2, "random")
+    shared = {b for b, k in cs.uses().items() if k >= 3}
 
     litems = []
     citems = []
     samples = []
-    for n, (src, sh) in enumerate(srcs):
+    for n, it in enumerate(cs.items):
+        src, sh = cs.src(it), it[4]
+        s_term = cs.s_term(it, shared)
         out = L.outcome(src, sh)
         stats["lexer_cases"] += 1
         replay = {"source": src, "shorthand_indexes": sh, "how": "liquid2.tokenize"}
@@ -262,23 +262,22 @@ def main(chk: C.Check, build: C.Build) -> None:
             stats["liquid_errors"] -= 1
             if out[2] is not None:
                 try:
-                    ctx = out[3].context()
-                    ln, col, prev, cur, nxt = ctx
-                    exp = f"(Ok ({ln}%nat, {col}%nat, {C.cstr(prev)}, {C.cstr(cur)}, {C.cstr(nxt)}))"
+                    ln, col, prev, cur, nxt = out[3].context()
+                    exp = (f"(Ok ({ln}%nat, {col}%nat, {L.sx(prev, src)}, {L.sx(cur, src)}, {L.sx(nxt, src)}))")
                 except Exception as e:  # noqa: BLE001
                     kind = type(e).__name__ if type(e).__name__ in L.PYKINDS else "OtherPyError"
                     exp = f"(PyExc {kind})"
-                citems.append({"case": f"ctx_eqb (error_context {C.cstr(src)} {out[2]}) {exp}",
-                               "model": f"error_context {C.cstr(src)} {out[2]}",
+                citems.append({"case": f"(let s := {s_term} in ctx_eqb (error_context s {out[2]}) {exp})",
+                               "model": f"error_context {s_term} {out[2]}", "base": it[0],
                                "replay": {"source": src, "index": out[2], "context": exp}})
         try:
             exp = L.outcome_term(out, src)
-            case = f"(let s := {C.cstr(src)} in lex_eqb (lex {C.cbool(sh)} s) {exp})"
+            case = f"(let s := {s_term} in lex_eqb (lex {C.cbool(sh)} s) {exp})"
         except L.Unrepresentable:
             case = "false"
-        litems.append({"case": case, "model": f"lex {C.cbool(sh)} {C.cstr(src)}",
+        litems.append({"case": case, "model": f"lex {C.cbool(sh)} {s_term}", "base": it[0],
                        "replay": {"source": src, "shorthand_indexes": sh, "implementation": L.outcome_json(out)}})
-        if n % max(1, len(srcs) // 3) == 0 and len(samples) < 3:
+        if n % max(1, len(cs.items) // 3) == 0 and len(samples) < 3:
             samples.append({"source": src, "outcome": L.outcome_json(out)})
 
     # ---- (d) direct oracle over the unmodelled parser and renderer
@@ -311,10 +310,16 @@ def main(chk: C.Check, build: C.Build) -> None:
     for src, data in KNOWN_WITNESSES:
         run_one(chk, env, src, data, stats, {"source": src, "data": data, "recorded_witness": True})
 
-    C.correspond(chk, "c02_lex", IMPORTS, "", litems, what="Lex.lex (malformed stream)",
-                 shard=max(50, -(-len(litems) // 24)))
-    C.correspond(chk, "c02_ctx", IMPORTS, "", eitems + citems, what="ErrCtx.error_context / line_number",
-                 shard=max(50, -(-len(eitems + citems) // 16)))
+    both = sorted(litems + citems, key=lambda x: x["base"])
+    for gi in range(0, len(both), GROUP):
+        grp = both[gi:gi + GROUP]
+        used = sorted({x["base"] for x in grp} & shared)
+        defs = "\n".join(f"Definition B{b} : str := {C.cstr(cs.bases[b])}." for b in used)
+        C.correspond(chk, f"c02_lex_{gi // GROUP}", IMPORTS, defs, grp,
+                     what="Lex.lex + ErrCtx.error_context (malformed stream)",
+                     shard=max(50, -(-len(grp) // SHARDS)))
+    C.correspond(chk, "c02_ctx", IMPORTS, "", eitems, what="ErrCtx.error_context / line_number",
+                 shard=max(50, -(-len(eitems) // 16)))
     C.proofs_verdict(chk, proofs_ok)
 
     chk.coverage.update({
